@@ -7958,8 +7958,13 @@ def _check_dep_loop_sym(sym, ignore_choice):
                 # Dependency loop found
                 return _found_dep_loop(loop, sym)
 
-        # The symbol is not part of a dependency loop
-        sym._visited = 2
+        # The symbol is not part of a dependency loop. A choice symbol reached
+        # through its choice has only been checked partially (the path through
+        # the choice was suppressed), so it must not be marked as fully checked:
+        # a later path that reaches it some other way still has to follow its
+        # choice, or loops through the choice selection go unnoticed depending
+        # on the order in which symbols are visited.
+        sym._visited = 0 if (sym.choice and ignore_choice) else 2
 
         # No dependency loop found
         return None
